@@ -10,7 +10,13 @@
 package main
 
 import (
+	"crypto/ecdsa"
+	"crypto/elliptic"
+	"crypto/rand"
+	"crypto/tls"
+	"crypto/x509"
 	"encoding/json"
+	"math/big"
 	"fmt"
 	"io"
 	"log/slog"
@@ -128,7 +134,11 @@ func runVariant(p rparams.Params) out {
 		return a + "/" + pid.ID
 	}
 	o := newObs()
-	ra := remote.New(addrA, remote.NewConfig())
+	rcfg := remote.NewConfig()
+	if p.TLS {
+		rcfg = rcfg.WithTLS(selfSignedTLS())
+	}
+	ra := remote.New(addrA, rcfg)
 	ea, err := actor.NewEngine(actor.NewEngineConfig().WithRemote(ra))
 	if err != nil {
 		return out{Kind: "record", Variant: p.String(), Detail: "engine A: " + err.Error()}
@@ -171,7 +181,7 @@ func runVariant(p rparams.Params) out {
 	var eb *actor.Engine
 	var rb, rc *remote.Remote
 	startPeer := func(addr, prefix string) (*actor.Engine, *remote.Remote, error) {
-		r := remote.New(addr, remote.NewConfig())
+		r := remote.New(addr, rcfg)
 		e, err := actor.NewEngine(actor.NewEngineConfig().WithRemote(r))
 		if err != nil {
 			return nil, nil, err
@@ -474,6 +484,28 @@ func runLifecycle(seq string) out {
 		r.Stop().Wait()
 	}
 	return res
+}
+
+// selfSignedTLS: one throw-away certificate for 127.0.0.1, used by both ends (the client side does not
+// verify it: the scenarios are about delivery and unreachability, not about authentication).
+var tlsOnce sync.Once
+var tlsCfg *tls.Config
+
+func selfSignedTLS() *tls.Config {
+	tlsOnce.Do(func() {
+		key, err := ecdsa.GenerateKey(elliptic.P256(), rand.Reader)
+		if err != nil {
+			panic(err)
+		}
+		tmpl := &x509.Certificate{SerialNumber: big.NewInt(1), NotBefore: time.Now().Add(-time.Hour), NotAfter: time.Now().Add(24 * time.Hour),
+			KeyUsage: x509.KeyUsageDigitalSignature, ExtKeyUsage: []x509.ExtKeyUsage{x509.ExtKeyUsageServerAuth}, IPAddresses: []net.IP{net.ParseIP("127.0.0.1")}}
+		der, err := x509.CreateCertificate(rand.Reader, tmpl, tmpl, &key.PublicKey, key)
+		if err != nil {
+			panic(err)
+		}
+		tlsCfg = &tls.Config{Certificates: []tls.Certificate{{Certificate: [][]byte{der}, PrivateKey: key}}, InsecureSkipVerify: true}
+	})
+	return tlsCfg
 }
 
 func main() {
